@@ -115,9 +115,12 @@ def transpose(C, prior_counts=None, calculate_eq_probs=True):
 
     equilibrium = None
     if calculate_eq_probs:
-        equilibrium = np.array(C_sym.sum(axis=1) / C_sym.sum()).flatten()
+        # (the axis-less sum of a bsr_matrix with several blocks raises)
+        row_sums = np.array(C_sym.sum(axis=1)).flatten()
+        equilibrium = row_sums / row_sums.sum()
 
-    return C_sym/2, probs, equilibrium
+    # (lil/dok matrices of integers keep their dtype under `/ 2`)
+    return C_sym * 0.5, probs, equilibrium
 
 
 def normalize(C, prior_counts=None, calculate_eq_probs=True):
@@ -164,6 +167,9 @@ def _apply_prior_counts(C, prior_counts):
             C = C + prior_counts
         except NotImplementedError:
             C = np.array(C.todense()) + prior_counts
+        if isinstance(C, np.matrix):
+            # scipy returns np.matrix for `sparse matrix + ndarray`
+            C = np.asarray(C)
 
     return C
 
@@ -186,7 +192,8 @@ def _row_normalize(C):
     n_states = C.shape[0]
 
     if scipy.sparse.isspmatrix(C):
-        C_csr = scipy.sparse.csr_matrix(C).asfptype()
+        # (asfptype() would take int8/int16 counts to float32 only)
+        C_csr = scipy.sparse.csr_matrix(C).astype(np.float64)
         weights = np.asarray(C_csr.sum(axis=1)).flatten()
         inv_weights = np.zeros(n_states)
         inv_weights[weights > 0] = 1.0 / weights[weights > 0]
